@@ -87,8 +87,9 @@ bool entry_domain(const std::string & n, Domain & d)
   {
   static const std::set<std::string> none = { "limits_max", "limits_lowest", "limits_nan", "limits_one", "const_phi", "const_pidiv2", "sqrt_constexpr_available", "cplusplus" };
   static const std::set<std::string> unary_fix = { "neg", "abs", "isnan", "ceil", "floor", "sqrt", "sqrt_abacus", "sqrt_std_math", "sin", "cos", "tan", "atan", "asin", "acos", "sqrt_aprox", "atan_index_aprox", "atan_aprox", "ostream", "rt_f64", "rt_f32",
+    "cast_i32_reassign", "cast_i64_reassign", "cast_u16_reassign", "cast_f64_reassign", "cast_f32_reassign", "neg_reassign", "abs_reassign", "isnan_reassign", "sin_reassign", "sqrt_reassign", "floor_reassign", "ceil_reassign",
     "addeq_self", "subeq_self", "muleq_self", "diveq_self", "addeq_ref_self", "subeq_ref_self", "muleq_ref_self", "diveq_ref_self" };
-  static const std::set<std::string> binary_fix = { "cmp_lt", "cmp_le", "cmp_gt", "cmp_ge", "cmp_eq", "cmp_ne", "and_", "hypot", "atan2", "hypot_aprox", "add_sub_back", "sub_add_back", "add_isnan", "sub_isnan", "add_isnan_pp", "sub_isnan_np" };
+  static const std::set<std::string> binary_fix = { "cmp_lt", "cmp_le", "cmp_gt", "cmp_ge", "cmp_eq", "cmp_ne", "and_", "hypot", "atan2", "hypot_aprox", "add_sub_back", "sub_add_back", "add_reassign", "add_reassign_l", "sub_reassign", "sub_reassign_l", "mul_reassign", "mul_reassign_l", "div_reassign", "div_reassign_l", "add_isnan", "sub_isnan", "add_isnan_pp", "sub_isnan_np" };
   if(none.count(n)) { d = { K_NONE, K_NONE }; return true; }
   if(unary_fix.count(n)) { d = { K_FIX, K_NONE }; return true; }
   if(binary_fix.count(n)) { d = { K_FIX, K_FIX }; return true; }
